@@ -71,9 +71,24 @@ def parse(s):
         # (a == b) / (a != b): one atom, with the disequality folded into a negation
         ne = _split_top(inner, ' != ')
         if len(ne) == 2:
-            return ('not', ('atom', '(' + ne[0] + ' == ' + ne[1] + ')'))
+            return ('not', _eq_atom(ne[0], ne[1]))
+        eq = _split_top(inner, ' == ')
+        if len(eq) == 2:
+            return _eq_atom(eq[0], eq[1])
         return ('atom', s)
     return ('atom', s)
+
+
+def _eq_atom(a, b):
+    """a == b as an atom whose spelling does not depend on the order of the operands; a pointer compared with
+    nullptr is the negation of the pointer used as a condition."""
+    a, b = a.strip(), b.strip()
+    if b == 'nullptr':
+        return ('not', parse(a))
+    if a == 'nullptr':
+        return ('not', parse(b))
+    x, y = sorted((a, b))
+    return ('atom', '(' + x + ' == ' + y + ')')
 
 
 def atoms(f, acc=None):
